@@ -3,6 +3,7 @@
 //! per-case isolation (catch_unwind for panics, alarm() for hangs; aborts and
 //! stack overflows kill the process and are attributed by the orchestrator to
 //! the case in flight).
+pub mod pe;
 use std::io::Write;
 use std::panic;
 
